@@ -1443,6 +1443,10 @@ func main() {
 		{pkgs["serializers"], "CDX", "Serialize"},
 		{pkgs["serializers"], "SPDX23", "Serialize"},
 		{pkgs["writer"], "Writer", "WriteStreamWithOptions"},
+		{pkgs["writer"], "", "New"},
+		{pkgs["reader"], "", "New"},
+		{pkgs["writer"], "Options", "clone"},
+		{pkgs["reader"], "Options", "clone"},
 	} {
 		fd := findFunc(sp.p, sp.recv, sp.name)
 		items := skeleton(sp.p, fd)
@@ -1454,6 +1458,82 @@ func main() {
 	}
 	sk.WriteString("end Protobom.Gen.Skel\n")
 	writeIfChanged(filepath.Join(*out, "Skel.lean"), sk.String())
+
+	// ---------------- option objects: reference-typed fields and what clone() re-allocates (C18)
+	var op strings.Builder
+	op.WriteString(header)
+	op.WriteString("namespace Protobom.Gen.Opts\n\n")
+	for _, pn := range []string{"reader", "writer"} {
+		p := pkgs[pn]
+		var refFields, valFields []string
+		if obj := p.Types.Scope().Lookup("Options"); obj != nil {
+			if st, ok := obj.Type().Underlying().(*types.Struct); ok {
+				for i := 0; i < st.NumFields(); i++ {
+					f := st.Field(i)
+					switch f.Type().Underlying().(type) {
+					case *types.Pointer, *types.Map, *types.Slice, *types.Interface, *types.Chan, *types.Signature:
+						refFields = append(refFields, leanStr(f.Name()))
+					default:
+						valFields = append(valFields, leanStr(f.Name()))
+					}
+				}
+			}
+		}
+		var fresh []string
+		usesCopy := false
+		if fd := findFunc(p, "Options", "clone"); fd != nil {
+			res := ""
+			ast.Inspect(fd.Body, func(n ast.Node) bool {
+				as, ok := n.(*ast.AssignStmt)
+				if !ok {
+					return true
+				}
+				for i, l := range as.Lhs {
+					if i >= len(as.Rhs) {
+						continue
+					}
+					// c := *o  — the value copy the clone starts from
+					if id, ok := l.(*ast.Ident); ok {
+						if st, ok := as.Rhs[i].(*ast.StarExpr); ok && exprString(st.X) == recvName(fd) {
+							res = id.Name
+							usesCopy = true
+						}
+					}
+					// c.F = &x  /  c.F = make(...)
+					if se, ok := l.(*ast.SelectorExpr); ok && exprString(se.X) == res && res != "" {
+						switch r := as.Rhs[i].(type) {
+						case *ast.UnaryExpr:
+							if r.Op == token.AND {
+								fresh = append(fresh, leanStr(se.Sel.Name))
+							}
+						case *ast.CallExpr:
+							if id, ok := r.Fun.(*ast.Ident); ok && (id.Name == "make" || id.Name == "new") {
+								fresh = append(fresh, leanStr(se.Sel.Name))
+							}
+						}
+					}
+				}
+				return true
+			})
+		}
+		// New: does it start from defaultOptions.clone()?
+		newClones := false
+		if fd := findFunc(p, "", "New"); fd != nil {
+			ast.Inspect(fd.Body, func(n ast.Node) bool {
+				if ce, ok := n.(*ast.CallExpr); ok && exprString(ce.Fun) == "defaultOptions.clone" {
+					newClones = true
+				}
+				return true
+			})
+		}
+		fmt.Fprintf(&op, "def %s_refFields : List String := [%s]\n", pn, strings.Join(refFields, ", "))
+		fmt.Fprintf(&op, "def %s_valFields : List String := [%s]\n", pn, strings.Join(valFields, ", "))
+		fmt.Fprintf(&op, "def %s_cloneFresh : List String := [%s]\n", pn, strings.Join(fresh, ", "))
+		fmt.Fprintf(&op, "def %s_cloneCopiesValue : Bool := %v\n", pn, usesCopy)
+		fmt.Fprintf(&op, "def %s_newClonesDefaults : Bool := %v\n\n", pn, newClones)
+	}
+	op.WriteString("end Protobom.Gen.Opts\n")
+	writeIfChanged(filepath.Join(*out, "Opts.lean"), op.String())
 
 	// ---------------- nil guards per function (C04, C07)
 	var gd strings.Builder
